@@ -1,7 +1,9 @@
 """C29 Process-based sync groups share device variables correctly
 
-domain : 1-3 generated device classes with 1-6 DeviceVars of random formats
-         (B H I Q b h i q x), 1-4 device instances in one ProcessSyncGroup;
+domain : 1-3 generated device classes (a later one may derive from an earlier
+         one and re-declare its first variables with other formats) with 1-6
+         DeviceVars of random formats (B H I Q b h i q x and multi-element
+         ones such as 3B, 3H, 2I), 1-4 device instances in one group;
          values written in the controlling process, read and overwritten in a
          child process started with the group's own spawn context, read back
          in the parent.
@@ -40,7 +42,22 @@ EXAMPLES = {"quick": 8, "thorough": 120}
 MIN_NONTRIVIAL = {"quick": 30, "thorough": 600}
 CASE_TIMEOUT = 120
 
-FMTS = "BHIQbhiqx"
+FMTS = list("BHIQbhiqx") + list("BHIQbhiqx") + ["3B", "3H", "2I", "5B",
+                                                     "3b", "2h"]
+
+
+def effective(classes, bases):
+    """formats of v0, v1, ... as an instance of each class sees them: a
+    derived class re-declares the first len(own) names of its base"""
+    eff = []
+    for ci, own in enumerate(classes):
+        b = bases[ci] if bases else None
+        eff.append(list(own) + (eff[b][len(own):] if b is not None else []))
+    return eff
+
+
+def norm(v):
+    return list(v) if isinstance(v, (tuple, list)) else v
 
 
 @st.composite
@@ -49,25 +66,31 @@ def case_strategy(draw):
     classes = [[draw(st.sampled_from(FMTS))
                 for _ in range(draw(st.integers(1, 6)))]
                for _ in range(ncls)]
+    bases = [None] + [draw(st.none() | st.integers(0, ci - 1))
+                      for ci in range(1, ncls)]
+    eff = effective(classes, bases)
     insts = [draw(st.integers(0, ncls - 1))
              for _ in range(draw(st.integers(1, 4)))]
     allvars = [(i, k) for i, c in enumerate(insts)
-               for k in range(len(classes[c]))]
+               for k in range(len(eff[c]))]
 
     def val(f):
         if f == "x":
             return draw(st.integers(-10**9, 10**9)) / 100000
-        lo, hi = dsl.fmt_range(f)
-        return draw(st.sampled_from([lo, hi, 0, 1]) | st.integers(lo, hi))
+        lo, hi = dsl.fmt_range(f[-1])
+        one = st.sampled_from([lo, hi, 0, 1]) | st.integers(lo, hi)
+        if len(f) > 1:
+            return [draw(one) for _ in range(int(f[:-1]))]
+        return draw(one)
 
     def phase():
         out = []
         for (i, k) in allvars:
             if draw(st.integers(0, 2)):
-                out.append([i, k, val(classes[insts[i]][k])])
+                out.append([i, k, val(eff[insts[i]][k])])
         return out
-    return {"classes": classes, "insts": insts, "parent": phase(),
-            "child": phase()}
+    return {"classes": classes, "bases": bases, "insts": insts,
+            "parent": phase(), "child": phase()}
 
 
 def strategy(tier):
@@ -86,6 +109,8 @@ def child_main(sg, writes, conn):
             for k in range(len(dev.FMTS)):
                 seen.append((i, k, getattr(dev, "v%d" % k)))
         for i, k, v in writes:
+            if isinstance(v, list):
+                v = tuple(v)
             setattr(sg.devices[i], "v%d" % k, v)
         conn.send(("ok", seen))
     except Exception as e:
@@ -97,6 +122,8 @@ def child_main(sg, writes, conn):
 def run_case(case):
     from ebpfcat.ebpfcat import ParallelEtherCat, ProcessSyncGroup
     classes, insts = case["classes"], case["insts"]
+    bases = case.get("bases") or [None] * len(classes)
+    eff = effective(classes, bases)
     tmp = tempfile.mkdtemp(prefix="vf_c29_", dir="/dev/shm"
                            if os.path.isdir("/dev/shm") else None)
     modname = "vfc29_" + os.path.basename(tmp).replace("-", "_")
@@ -104,7 +131,9 @@ def run_case(case):
     for ci, fmts in enumerate(classes):
         body = "\n".join(f"    v{k} = DeviceVar({f!r}, write=True)"
                          for k, f in enumerate(fmts))
-        src.append(f"class Dev{ci}(Device):\n    FMTS = {fmts!r}\n{body}\n")
+        parent = "Device" if bases[ci] is None else f"Dev{bases[ci]}"
+        src.append(f"class Dev{ci}({parent}):\n    FMTS = {eff[ci]!r}\n"
+                   f"{body}\n")
     with open(os.path.join(tmp, modname + ".py"), "w") as fout:
         fout.write(SOURCE.format(classes="\n".join(src)))
     sys.path.insert(0, tmp)
@@ -113,8 +142,8 @@ def run_case(case):
 
     def fail(what, **kw):
         return dict(ok=False, nontrivial=True, classes=cls_,
-                    what=f"{what}; device classes {classes}, instances "
-                         f"{insts}", **kw)
+                    what=f"{what}; device classes {classes}, bases {bases}, "
+                         f"instances {insts}", **kw)
     proc = None
     try:
         mod = importlib.import_module(modname)
@@ -129,10 +158,11 @@ def run_case(case):
         model = {}
         try:
             for i, dev in enumerate(devs):
-                for k, f in enumerate(classes[insts[i]]):
-                    model[i, k] = getattr(dev, f"v{k}")
+                for k, f in enumerate(eff[insts[i]]):
+                    model[i, k] = norm(getattr(dev, f"v{k}"))
             for i, k, v in case["parent"]:
-                setattr(devs[i], f"v{k}", v)
+                setattr(devs[i], f"v{k}",
+                        tuple(v) if isinstance(v, list) else v)
                 model[i, k] = v
         except Exception as e:
             return fail(f"accessing a device variable in the controlling "
@@ -150,17 +180,17 @@ def run_case(case):
             return fail(f"the child process failed: {payload}",
                         bucket="child")
         for i, k, got in payload:
-            if got != model[i, k]:
+            if norm(got) != model[i, k]:
                 return fail(f"child reads {got!r} for device {i} variable "
-                            f"v{k}:{classes[insts[i]][k]}, the parent had "
+                            f"v{k}:{eff[insts[i]][k]}, the parent had "
                             f"written {model[i, k]!r}", bucket="p->c")
         for i, k, v in case["child"]:
             model[i, k] = v
         for (i, k), want in model.items():
-            got = getattr(devs[i], f"v{k}")
+            got = norm(getattr(devs[i], f"v{k}"))
             if got != want:
                 return fail(f"parent reads {got!r} for device {i} variable "
-                            f"v{k}:{classes[insts[i]][k]}, expected {want!r} "
+                            f"v{k}:{eff[insts[i]][k]}, expected {want!r} "
                             f"(child wrote {[c for c in case['child'] if c[:2] == [i, k]]})",
                             bucket="c->p")
     finally:
@@ -173,7 +203,7 @@ def run_case(case):
     cw = {(i, k) for i, k, v in case["child"]}
     return dict(ok=True,
                 nontrivial=len(insts) >= 2 and bool(pw) and bool(cw - pw),
-                key=repr((classes, insts, sorted(pw), sorted(cw))),
+                key=repr((classes, bases, insts, sorted(pw), sorted(cw))),
                 classes=cls_, summary={"vars": len(model)})
 
 
